@@ -1,0 +1,16 @@
+//go:build verif
+
+package server
+
+// Second accessor file for the C15 harness (add-only).
+
+// VerifC15PoolLen returns len(ctl.workConnCh) of the session mapped to runID, -1 if there is none:
+// RegisterWorkConn puts a work connection there only after the plugin chain and
+// VerifyNewWorkConn both accepted it.
+func (svr *Service) VerifC15PoolLen(runID string) int {
+	ctl, ok := svr.ctlManager.GetByID(runID)
+	if !ok {
+		return -1
+	}
+	return len(ctl.workConnCh)
+}
